@@ -1,6 +1,6 @@
 (* C09 -- every marker routine of the model is a resumable unit. *)
 From Coq Require Import List ZArith Lia Arith Bool.
-From LJT Require Import model.Suspend model.SuspendMarker proofs.SuspendProofs proofs.SuspendWriteProofs.
+From LJT Require Import model.SuspendCore model.SuspendMarker proofs.SuspendProofs proofs.SuspendWriteProofs.
 Import ListNotations.
 
 (* ------------------------------------------------ stability of routines *)
